@@ -217,6 +217,39 @@ def body(run):
                     cause = 'nearest-tie'
             run.add_violation('result depends on the block partition', desc, expected='identical parameters / corrected',
                               observed=problems, signature=dict(kind='blocking', cause=cause))
+    # (c) a low-texture surface with a few extreme pixels (roofs on bare ground): nothing about a pixel's fit may be judged relative to the largest
+    #     value / variance / denominator of the BLOCK it happens to share with them - one block versus many, dyadic geometry, bit for bit
+    for k in range(run.scale(2, 8)):
+        g = synth.aligned_geom(rng, max_src=run.scale(48, 64))
+        hs, ws = g.src_shape
+        src = (300 + np.array([[rng.randint(-3, 3) for _ in range(ws)] for _ in range(hs)])).astype('float32')[None]
+        r0, c0 = rng.randrange(2, max(3, hs // 4)), rng.randrange(2, max(3, ws // 4))
+        src[0, r0:r0 + 3, c0:c0 + 4] = 9000
+        src[0, r0 + 1, c0 + 1:c0 + 3] = 100
+        ref = (200 + 0.5 * fz.texture(rng, g.ref_shape, 1, lo=0, hi=40)).astype('float32')
+        pair = fz.make_pair(run.work, g, rng, src=src, ref=ref, tag='ct')
+        kshape = [(5, 5), (3, 3)][k % 2]
+        kw = dict(model='gain-offset', kernel_shape=kshape, proc_crs='auto', threads=1, model_config=dict(r2_inpaint_thresh=None, upsampling='bilinear'))
+        try:
+            mbm = fz.block_mem_for(pair['src_fn'], pair['ref_fn'], 'auto', [16, 9][k % 2], 1.05)
+            one = fz.fuse(pair['src_fn'], pair['ref_fn'], run.work / 'one.tif', max_block_mem=1e6, **kw)
+            many = fz.fuse(pair['src_fn'], pair['ref_fn'], run.work / 'many.tif', max_block_mem=mbm, **kw)
+        except Exception as ex:
+            if type(ex).__name__ not in ('BlockSizeError', 'ImageContentError'):
+                raise
+            dist['error:' + type(ex).__name__] = dist.get('error:' + type(ex).__name__, 0) + 1
+            continue
+        desc = dict(geom=g.describe(), aligned=True, model='gain-offset', kernel_shape=list(kshape), upsampling='bilinear', max_block_mem=mbm,
+                    data='surface 300 +- 3 with a 3 x 4 cluster of 9000 / 100', proc_crs=one['proc_crs'])
+        dist['contrast/gain-offset'] = dist.get('contrast/gain-offset', 0) + 1
+        run.count_case(('ct', k), True, desc if k < 1 else None)
+        pa, pb = many['param']['array'], one['param']['array']
+        # (gain and offset bit for bit; the R2 band of such windows is the cancellation-prone quantity of 10.3 and is not judged here)
+        nb_ = pa.shape[0] // 3
+        d = fz.first_diff(pa[:2 * nb_], pb[:2 * nb_])
+        if d:
+            run.add_violation('result depends on the block partition', desc, expected='identical parameters / corrected', observed={'parameter image': d},
+                              signature=dict(kind='blocking', cause='other'))
     run.cov['evaluations'] += ncorr + len(ov_cases) + len(ks_cases)
     run.cov['rule'] = ('paired real fusions with 1 block versus 2..30 blocks on the auto grid (gain, gain-offset without in-painting; kernels incl. '
                        'h != w; nearest / bilinear / cubic-spline up-sampling) compared bit for bit (cubic: differences must lie within one '
